@@ -190,6 +190,7 @@ pub fn score_matches_value(s: &Score, v: i32) -> bool {
 // Game histories (W-hist)
 // ------------------------------------------------------------------------------------------------
 
+#[derive(Clone)]
 pub struct History {
     pub start: Pos,
     pub moves: Vec<Mv>,
